@@ -24,7 +24,7 @@ and every sequence of sources:
 * (f) queries: `isUsed_iff`, `isDefault_of_default_setter`, `not_default_has_setter`
 
 Not proved here (checked by the differential run only): that the decimal `strtod`/`strtol` models agree with glibc;
-that `atof` on the start of a two-sided real range string reads exactly the lower-bound literal (proved for integer bounds; for real ones by the examples below). -/
+the full `strtod` syntax: proved are acceptance and value of plain decimal literals (no exponent) and of integer syntax; exponent forms are covered by examples and the differential run. -/
 namespace EaselModel.Props.C14
 open EaselModel.Getopts
 
@@ -353,6 +353,22 @@ theorem real_range_two_sided (v lo hi : Str) (geq leq : Bool) (hc : 'x' ∉ lo) 
        (if leq then (atof v).value ≤ (atof hi).value else (atof v).value < (atof hi).value)) :=
   realRangeOk_twoSided_iff v lo hi geq leq hc hhi
 
+/-- … and when the lower bound is written as a plain decimal literal (as in all documented examples) it is that
+    literal's value -/
+theorem real_range_two_sided_literal (v lo hi : Str) (geq leq : Bool) {neg : Bool} {ip fp : Str} {dot : Bool}
+    (hlo : RealLit lo neg ip fp dot) (hhi : leq = false → hi.head? ≠ some '=') :
+    realRangeOk v (some (twoSided 'x' lo geq leq hi)) = true ↔
+      ((if geq then (atof lo).value ≤ (atof v).value else (atof lo).value < (atof v).value) ∧
+       (if leq then (atof v).value ≤ (atof hi).value else (atof v).value < (atof hi).value)) :=
+  realRangeOk_twoSided_lit v lo hi geq leq hlo hhi
+
+/-- a plain decimal literal (optional `-`, digits, optional `.` digits) is accepted as a real argument and denotes the
+    expected rational -/
+theorem plain_decimal_is_real {s : Str} {neg : Bool} {ip fp : Str} {dot : Bool} (h : RealLit s neg ip fp dot) :
+    isReal s = true ∧
+    (atof s).value = (if neg then -1 else 1) * (digitsVal (ip ++ fp) : ℚ) * (10 : ℚ) ^ (-(fp.length : Int)) :=
+  ⟨isReal_lit h, value_of_lit h⟩
+
 theorem real_range_lower (v a : Str) (incl : Bool) (h : incl = false → a.head? ≠ some '=') :
     realRangeOk v (some ('x' :: '>' :: ((if incl then ['='] else []) ++ a))) = true ↔
       (if incl then (atof a).value ≤ (atof v).value else (atof a).value < (atof v).value) := realRangeOk_lower_iff v a incl h
@@ -470,6 +486,8 @@ example : (runAll demoG [.cmdline [s "prog", s "-n", s "99"], .cfg (s "-b\n-n 3\
     = some [(.esyntax, true), (.ok, false), (.ok, false)] := by decide
 
 /-- documented range strings -/
+example : RealLit (s "-1.5") true (s "1") (s "5") true := ⟨by decide, by decide, by decide, by decide, by decide⟩
+example : RealLit (s "0") false (s "0") [] false := ⟨by decide, by decide, by decide, by decide, by decide⟩
 example : twoSided 'n' (s "0") true false (s "10") = s "0<=n<10" := by decide
 example : IntLit (s "-100") := ⟨true, s "100", by decide, by decide, by decide⟩
 example : intRangeOk (s "9") (some (s "0<=n<10")) = true ∧ intRangeOk (s "10") (some (s "0<=n<10")) = false ∧
